@@ -966,8 +966,8 @@ func c06PolicySwitchRace(r *ev.Run) {
 	if sutDied(r, s, "policy switching on the race build") {
 		return
 	}
-	for _, rr := range raceReports(s, []string{"proc/tcp/proc.go"}) {
-		r.Violation("C06:race:"+rr.Key, "data race between a selection and a configuration update that replaces the balancer / the configuration", map[string]interface{}{"report": rr.Text})
+	for _, rr := range raceReports(s, []string{"proc/tcp/proc.go", "proc/internal/lb/lb.go"}) {
+		r.Violation("C06:race:"+rr.Key, "data race between concurrent selections, or between a selection and a configuration update that replaces the balancer / the configuration", map[string]interface{}{"report": rr.Text})
 	}
 	r.Count("policy_switches_on_the_race_build", int64(n))
 	r.Count("connections_served_on_the_race_build", atomic.LoadInt64(&served))
